@@ -429,12 +429,14 @@ func (c *HostClient) Do(ctx context.Context, req *protocol.Request, resp *protoc
 			continue
 		}
 
-		if isDefaultRetryFunc {
+		attempts++
+		if attempts >= maxAttempts {
 			break
 		}
 
-		attempts++
-		if attempts >= maxAttempts {
+		// The default retry condition is asked after the attempt: it cannot see any more that the
+		// body was a stream (consumed and dropped by the write).
+		if bodyIsStream && isDefaultRetryFunc {
 			break
 		}
 
